@@ -1,11 +1,13 @@
 (* Structure/Siblings.v -- StructureChecker::check_siblings, derive_sibling_path and
    extract_stem_from_pattern (checker/structure/mod.rs:301-507) (C07).
-   The directory matcher of a sibling rule is the rule's scope on the normalised parent path (oracle column
-   c_scope of the parent, carried by the entry as e_plim); the file matcher of a directed rule is
-   the oracle column c_sib.  File names are valid UTF-8 (non-UTF-8 names are skipped by the code and
+   Which sibling entries apply to a directory (fixes/D81): those of the LAST declared structure rule whose scope
+   matches the normalised parent path (oracle column c_scope of the parent, carried by the entry as e_plim), the
+   rule explain names and whose limits and allow/deny lists apply.  Sibling entries do NOT accumulate over all
+   matching rules: a matching rule declared earlier is superseded as a whole.  The file matcher of a directed
+   rule is the oracle column c_sib.  File names are valid UTF-8 (non-UTF-8 names are skipped by the code and
    are not modelled). Definitions only. *)
 From Coq Require Import ZArith NArith List Bool Arith.
-From SG Require Import Structure.Tree Structure.Names Structure.Config.
+From SG Require Import Structure.Tree Structure.Names Structure.Config Structure.Limits.
 Import ListNotations.
 Open Scope Z_scope.
 
@@ -86,18 +88,34 @@ Fixpoint sibling_rule (files : list path) (e : entry) (i : Z) (sibs : list sibli
   | s :: r => sibling_one files e i s (hd false fms) ++ sibling_rule files e i r (tl fms)
   end.
 
-(* all rules, in declaration order; sc = does rule i's scope match the parent directory *)
-Fixpoint sibling_rules (files : list path) (e : entry) (rs : list (Z * srule)) (sc : list bool)
+(* the compiled sibling entries carry the index of their declaring rule; those of rule number [consulted]
+   are kept, in declaration order (filter rule_index == consulted) *)
+Fixpoint sibling_rules (files : list path) (e : entry) (rs : list (Z * srule))
+         (cols : list (list bool)) (consulted : Z) : list violation :=
+  match rs with
+  | [] => []
+  | (i, r) :: rs' =>
+      (if Z.eqb i consulted then sibling_rule files e i (sr_siblings r) (hd [] cols) else [])
+      ++ sibling_rules files e rs' (tl cols) consulted
+  end.
+
+(* the consulted rule: self.rules.iter().rposition(scope matches the parent), i.e. Limits.last_match *)
+Definition sibling_entry (cfg : config) (files : list path) (e : entry) : list violation :=
+  match last_match cfg (e_plim e) with
+  | Some (i, _) => sibling_rules files e (indexed (rules cfg)) (c_sib (e_cols e)) i
+  | None => []
+  end.
+
+(* the behaviour before fixes/D81, kept for the witness in Properties_C07: the entries of EVERY rule whose
+   scope matches were applied, superseded rules included *)
+Fixpoint sibling_rules_accumulating (files : list path) (e : entry) (rs : list (Z * srule)) (sc : list bool)
          (cols : list (list bool)) : list violation :=
   match rs with
   | [] => []
   | (i, r) :: rs' =>
       (if hd false sc then sibling_rule files e i (sr_siblings r) (hd [] cols) else [])
-      ++ sibling_rules files e rs' (tl sc) (tl cols)
+      ++ sibling_rules_accumulating files e rs' (tl sc) (tl cols)
   end.
-
-Definition sibling_entry (cfg : config) (files : list path) (e : entry) : list violation :=
-  sibling_rules files e (indexed (rules cfg)) (e_plim e) (c_sib (e_cols e)).
 
 (* check_siblings over the scanned files (es = the walked entries, files = ScanResult.files) *)
 Definition is_scanned_file (files : list path) (e : entry) : bool :=
